@@ -111,7 +111,7 @@ def probe_variants(run, fields=("falsy", "index", "embed", "nest", "syntax", "in
 
 
 REJECT = ("InvalidSelectorError", "InvalidValueError")
-FUNCS = ("validate", "get", "is_marked", "add", "remove", "clear", "set", "ctor")
+FUNCS = ("validate", "get", "is_marked", "add", "remove", "clear", "set", "ctor", "is_marked_inh", "get_inh")
 CODES = {"ok": "o", "InvalidSelectorError": "S", "MarkingNotFoundError": "M", "TypeNotVersionableError": "T",
          "ObjectNotVersionableError": "O", "RevokeError": "R", "InvalidValueError": "V", "n/a": "-"}
 
